@@ -13,7 +13,7 @@ META = {
         "typelib.serdes.load/decode/iteritems/itervalues/get_items_iter/_is_iterable_of_pairs/isoformat/dateparse",
     ],
     "bounds": {
-        "quick": "catalogue depth<=2 (~95 T); symbolic str len<=2; containers len<=2; ints unbounded (narrow [-2,2] in "
+        "quick": "catalogue depth<=2 (~95 T) + a variant with every str leaf drawn from 7 texts that read as null / JSON / numbers / dates; symbolic str len<=2; containers len<=2; ints unbounded (narrow [-2,2] in "
                  "sets / int dict keys); realised scalars from pick-lists; recursion depth 2; 30 s per condition",
         "thorough": "catalogue depth<=3 (~115 T); same leaf bounds; recursion depth 3; 120 s per condition",
     },
@@ -28,7 +28,10 @@ def _routines(T):
         return marshals.marshaller(T), unmarshals.unmarshaller(T)
 
 
-def make(shape, timeout):
+ADV = ("null", "None", "1", "[1]", "true", "2020-01-01", '{"a": 1}')
+
+
+def make(shape, timeout, adversarial=False):
     try:
         MT, UT = _routines(shape.T)
         err = None
@@ -43,7 +46,7 @@ def make(shape, timeout):
         if err is not None:
             reached()
             return ("build_failed", site0, err)
-        v = shape.build(Src(p))
+        v = shape.build(Src(p, strs=ADV) if adversarial else Src(p))
         site = site0
         if tag is not None:
             with NoTracing():
@@ -65,7 +68,7 @@ def make(shape, timeout):
                 return None
         return ("roundtrip_neq", site, _d("", v, m, r))
 
-    return Cond(f"rt/{site0}", params_for(shape), body, mode="E1" if shape.transparent else "E1+picks",
+    return Cond(("rtx/" if adversarial else "rt/") + site0, params_for(shape), body, mode="E1" if shape.transparent else "E1+picks",
                 timeout=timeout, bounds=f"shape {site0}")
 
 
@@ -92,6 +95,28 @@ def _has_union(shape, seen=None):
     return False
 
 
+def _has_str(shape, seen=None):
+    from vlib.shapes import Str
+
+    seen = seen if seen is not None else set()
+    if id(shape) in seen or type(shape).__name__ == "Lazy":
+        return False
+    seen.add(id(shape))
+    if isinstance(shape, Str):
+        return shape.picks is None
+    d = shape.__dict__
+    subs = [d[k] for k in ("elem", "key", "val", "inner") if k in d]
+    subs += list(d.get("elems") or ()) + list((d.get("fields") or {}).values())
+    return any(_has_str(x, seen) for x in subs)
+
+
 def conditions(tier, seed):
+    from vlib.fixtures import models as M
+    from vlib.shapes import EnumS
+
     to = 30.0 if tier == "quick" else 120.0
-    return [make(s, to) for s in universe.catalogue(tier)]
+    out = [make(s, to) for s in universe.catalogue(tier)]
+    # str leaves drawn from texts that read as JSON / null / numbers / dates (adversarial for the text decoders)
+    out += [make(s, to, adversarial=True) for s in universe.catalogue(tier) if _has_str(s)]
+    out.append(make(EnumS(M.TagNum), to))
+    return out
